@@ -4,6 +4,7 @@ package isaacstates
 
 import (
 	"fmt"
+	"slices"
 	"sort"
 	"strings"
 	"time"
@@ -327,6 +328,42 @@ func (fx *c04fx) voteproof(id string) base.Voteproof {
 		var sfs []base.BallotSignFact
 		for _, s := range signers {
 			sfs = append(sfs, fx.signFact(s, p, "A", false, efs, "e-"+target))
+		}
+		ivp := isaac.NewINITExpelVoteproof(p.point())
+		ivp.SetMajority(fx.fact(p, "A", false, efs)).SetSignFacts(sfs).SetThreshold(fx.th)
+		ivp.SetExpels(ops)
+		ivp.Finish()
+		vp = ivp
+	case "iexpm":
+		// "iexpm:<h>.<r>:<t1>+<t2>" INIT expel voteproof of (h,r): majority fact A with the expels of t1, t2 (each operation
+		// signed by every member but its target, the same operation a ballot "ti/<all others>" carries), signed by the members not expelled
+		var h int64
+		var r uint64
+		parts := strings.Split(rest, ":")
+		fmt.Sscanf(parts[0], "%d.%d", &h, &r)
+		targets := strings.Split(parts[1], "+")
+		p := c04sp{h: h, r: r}
+		var ops []base.SuffrageExpelOperation
+		for _, t := range targets {
+			var signers []string
+			for i := range fx.nodes {
+				if s := fmt.Sprintf("n%d", i); s != t {
+					signers = append(signers, s)
+				}
+			}
+			ops = append(ops, fx.expelOp(h, t, strings.Join(signers, ",")))
+		}
+		sort.Slice(ops, func(i, j int) bool {
+			return strings.Compare(ops[i].Fact().Hash().String(), ops[j].Fact().Hash().String()) < 0
+		})
+		efs := fx.expelHashes(ops)
+		var sfs []base.BallotSignFact
+		for i := range fx.nodes {
+			s := fmt.Sprintf("n%d", i)
+			if slices.Contains(targets, s) {
+				continue
+			}
+			sfs = append(sfs, fx.signFact(s, p, "A", false, efs, "ex("+strings.Join(targets, ";")+")"))
 		}
 		ivp := isaac.NewINITExpelVoteproof(p.point())
 		ivp.SetMajority(fx.fact(p, "A", false, efs)).SetSignFacts(sfs).SetThreshold(fx.th)
